@@ -80,6 +80,27 @@ Inductive init_item :=
 | IFn       (* *--sp = (void* )run_function;     *)
 | IZero.    (* *--sp = 0;                        *)
 
+(* the statements of fiber_context_swap that precede the asm: the preprocessor
+   condition a statement is under, what it is, and whether it is executed
+   unconditionally (false: wrapped in a C `if`) *)
+Inductive pguard := GAlways | GSplit (* FIBER_STACK_SPLIT *) | GTsan (* __SANITIZE_THREAD__ *).
+Inductive pkind :=
+| KAssert           (* assert(from) / assert(to)                                  *)
+| KDeclFromSlot     (* void*** const from_sp = &from->ctx_stack_pointer           *)
+| KDeclToSp         (* void** const to_sp = to->ctx_stack_pointer                 *)
+| KSplitGetFrom     (* __splitstack_getcontext(from->splitstack_context)          *)
+| KSplitSetTo       (* __splitstack_setcontext(to->splitstack_context)            *)
+| KTsanSwitchTo     (* __tsan_switch_to_fiber(to->tsan_fiber, 0)                  *)
+| KPrefetchTo.      (* __builtin_prefetch(to_sp +- k, rw, locality)               *)
+Inductive pcall := PCall (g : pguard) (k : pkind) (unconditional : bool).
+
+Definition pc_guard (c : pcall) : pguard := match c with PCall g _ _ => g end.
+Definition pc_kind (c : pcall) : pkind := match c with PCall _ k _ => k end.
+Definition pc_uncond (c : pcall) : bool := match c with PCall _ _ u => u end.
+Definition is_split_kind (k : pkind) : bool :=
+  match k with KSplitGetFrom | KSplitSetTo => true | _ => false end.
+Definition is_split_guard (g : pguard) : bool := match g with GSplit => true | _ => false end.
+
 (* ---------- machine ---------- *)
 Record mach := { rg : reg -> Z; mm : Z -> Z; rip : Z }.
 
